@@ -50,6 +50,60 @@ prop("C16", True, "E4 staking",
      "Held on every history observed: after every slash (fractions 0..1, >1, unknown validator; repeated) each delegation to the slashed validator lies in [floor((1-p)*shown), floor((1-p)*exact)] and never increases, p=1 removes all, delegations to other validators, all bank balances and pending rewards of delegations that stay positive are unchanged, rejected slashes leave storage byte-identical, and pending unbondings are later paid with exactly the per-entry floored amounts.",
      STK_NOTE, "DESIGN.md section 5 C16")
 
+CHAIN_NOTE = "Trusted: the ~600-line reference model written from the property statements (wasmd rules), the scripted contracts and their out-of-band trace, cosmwasm_std MockApi / instantiate2_address as address codec, serde_json decoding of raw state. Trees of depth <= 5 / <= 24 nodes, non-empty storage values, error texts never compared; staking/ibc/gov/stargate messages are outside this model (C14-C17)."
+prop("C01", True, "E1 chain",
+     "runtime monitor: byte comparison of the complete raw storage after every failed call (model-free) + reference-model final state and responses; failure sweep over every node of every generated tree",
+     "Held on every transaction observed: for execute, execute_multi, sudo, wasm_sudo, bank mint and the Executor helpers, over generated histories and message trees with a failure injected at every node of every tree: Err => raw storage byte-identical to before; Ok => responses and decoded final state (bank, registry, every contract's storage) equal the model; execute_multi returns one response per message in order, each seeing its predecessors' effects.",
+     CHAIN_NOTE, "DESIGN.md section 5 C01")
+prop("C02", True, "E1 chain",
+     "runtime monitor: reference model with snapshot/restore at the sub-message boundary; mid-transaction probes and own-storage dumps recorded out of band by reply handlers and later siblings",
+     "Held on every transaction observed: all four reply modes x child outcome x reply outcome x depth 1-3 (constructive matrix) plus random trees: top-level Ok/Err, final state and what reply handlers / later siblings observe mid-transaction equal the model, i.e. a failed sub-message's writes are gone at once, earlier writes stay, failures propagate unless caught by Error/Always with a succeeding reply.",
+     CHAIN_NOTE, "DESIGN.md section 5 C02")
+prop("C03", True, "E1 chain",
+     "runtime monitor: expected vs recorded out-of-band invocation trace, exact sequence equality (exactly-once, never-otherwise, ordering, depth-first)",
+     "Held on every transaction observed: the recorded sequence of contract invocations equals the model's entry by entry: reply invoked exactly when mode and outcome dictate, on the dispatcher, after the sub-message's whole subtree and before the next sibling, with id and payload bytes unchanged and Ok{events,data} exactly as produced / Err.",
+     CHAIN_NOTE, "DESIGN.md section 5 C03")
+prop("C04", True, "E1 chain",
+     "runtime monitor: reference composition of events and data (own 20-line protobuf encoder), exact Vec<Event> / byte equality on every response and every delivered Reply",
+     "Held on every transaction observed: AppResponse.events / .data of every top-level call and the events / data inside every delivered Reply equal the model's composition (entry-point event, optional wasm event, wasm-<type> events with the address first, sub-message then reply events, failed sub-messages dropped; data = last reply Some else own; wrapping rules).",
+     CHAIN_NOTE, "DESIGN.md section 5 C04")
+prop("C05", True, "E1 chain",
+     "runtime monitor: expected trace fields (sender, funds, env.contract.address, env.block, own balance at entry) vs what scripted contracts recorded out of band",
+     "Held on every invocation observed: sender = actual dispatcher (signer / emitting contract), env address = callee, env block = the harness's last set_block/update_block value at every entry point, info.funds = attached funds, own balance at entry already includes them, overdrafts fail without running the callee, funds return on failure (final ledger).",
+     CHAIN_NOTE, "DESIGN.md section 5 C05")
+prop("C08", True, "E1 chain",
+     "runtime monitor: per-contract model storage rendered against the decoded raw state byte for byte; four-way accessor agreement; per-transaction footprint invariant; crafted keys",
+     "Held on every transaction observed: with keys crafted to spell other modules' / contracts' raw prefixes, every contract's own-storage dump at entry, the decoded raw contract_data regions, dump_wasm_raw, contract_storage().range, WasmQuery::Raw (from App and from inside other contracts) and the model agree; no raw key outside the bank and wasm namespaces changes.",
+     CHAIN_NOTE, "DESIGN.md section 5 C08")
+prop("C10", True, "E1 chain",
+     "runtime monitor: query battery issued twice with raw-storage comparison (purity); probes inside contracts compared with the model's transaction-current state",
+     "Held on every execution observed: a battery of every query kind, each issued twice through App, leaves raw storage byte-identical and answers identically; every probe issued by contracts (twice) at entry of execute / reply / sudo / migrate equals the model's transaction-current state (sees completed effects, not rolled-back ones).",
+     CHAIN_NOTE, "DESIGN.md section 5 C10")
+prop("C11", True, "E1 chain",
+     "runtime monitor: model registry, independent address computation (sha256 formula / instantiate2_address), registry-heavy histories incl. non-contiguous and duplicated code ids",
+     "Held on every history observed: code ids (auto = max+1, chosen honoured, 0/duplicates rejected), every stored/duplicated code instantiable, migratable-to and CodeInfo-queryable, contract addresses equal the independently computed classic / salted addresses, duplicates and empty labels rejected without effect, ContractData / ContractInfo equal what was supplied.",
+     CHAIN_NOTE, "DESIGN.md section 5 C11")
+prop("C12", True, "E1 chain",
+     "runtime monitor: model registry + code tag in the invocation trace; admin-heavy histories by admins, former admins, strangers and contracts",
+     "Held on every history observed: Migrate / UpdateAdmin / ClearAdmin succeed exactly for the current admin, failures leave code id, admin and storage unchanged, a successful migrate runs the new code's migrate entry on the same address with the existing storage (dump at entry) and later calls are served by the new code.",
+     CHAIN_NOTE, "DESIGN.md section 5 C12")
+prop("C13", True, "E1 chain",
+     "runtime monitor: independent validity predicate (char::is_whitespace trimming, byte length) in the model at every entry point and depth",
+     "Held on every transaction observed: responses with attribute keys trimming to empty or starting with '_' (response or event level) or event types shorter than two bytes after trimming fail like any contract error at instantiate, execute, reply, sudo and migrate; all other keys, values (incl. empty) and types are accepted and surface unchanged.",
+     CHAIN_NOTE, "DESIGN.md section 5 C13")
+prop("C17", True, "E5 routing",
+     "runtime monitor: recording modules plugged into AppBuilder appending to one shared out-of-band log; expectation = f(kind, origin, configuration) over the full cell matrix",
+     "Held on every cell observed (all of the matrix in both tiers): every message / query kind x origin (top level, custom-typed contract depth 1-3, lifted Empty-typed contract depth 1-3) x all 2^6 accept/fail configurations x reply modes: exactly one log entry in the configured module with the true sender and identical payload, nothing else; caller sees the module's verdict; failing module => byte-identical storage unless caught; built-in Accepting/Failing types likewise.",
+     "Trusted: the recording modules and scripted contracts. QueryRequest::Distribution and SudoMsg::Custom are not exercised (no module accepts them).", "DESIGN.md section 5 C17")
+prop("C19", True, "E7 determinism",
+     "runtime monitor: transcript equality across twin / interleaved / separate-process executions, and under Miri with isolation as clock-entropy-environment monitor (thorough)",
+     "Held on every history observed: full transcripts (responses, Ok/Err, ids, addresses, checksums, query answers, contract observations, final raw storage) are identical between a solo run, a twin instance, two instances interleaved operation by operation with a third doing unrelated work, three separate processes started >= 1 s apart, and (thorough) Miri runs with isolation under different seeds.",
+     "Trusted: sha2 for digests. Error texts are excluded from transcripts. Miri histories are short.", "DESIGN.md section 5 C19")
+prop("C20", True, "E8 builder",
+     "runtime monitor: direct probe of tagged components over compile-time generated builder permutations; exhaustive ordered with_* chains of ContractWrapper",
+     "Held on every chain observed: empty chain, all single steps, all 110 ordered pairs, 40 triples, 24 full permutations of the 11 AppBuilder steps: every configured slot shows its tagged component, every other slot the default, init ran once against the supplied storage, all orders of a set behave identically; all ordered ContractWrapper with_* selections keep every entry point and the checksum.",
+     "Trusted: tagged stub components. Chains start from AppBuilder::new().", "DESIGN.md section 5 C20")
+
 for pid in ["C01","C02","C03","C04","C05","C08","C09","C10","C11","C12","C13","C14","C15","C16","C17","C18","C19","C20"]:
     if pid not in P:
         prop(pid, False, "", "", "", "", "", reason=PENDING)
